@@ -28,7 +28,10 @@ func BuildEndpointPolicyTree(
 		}
 		var endpointPolicy *map[urltree.Method]EndpointPolicy
 		existingEndpointPolicy := endpointPolicyTree.Lookup(endpoint.URL)
-		if existingEndpointPolicy.Value != nil {
+		// Merge only into the node of this very URL: a lookup may also return a
+		// less specific endpoint (e.g. a wildcard) that merely matches the URL.
+		if existingEndpointPolicy.Value != nil &&
+			existingEndpointPolicy.NormalizedURL == endpoint.URL {
 			existingPolicy := *existingEndpointPolicy.Value
 			existingPolicy[urltree.Method(endpoint.Method)] = EndpointPolicy{
 				URL:       endpoint.URL,
